@@ -128,6 +128,10 @@ class Stubs:
         m = getattr(self, 'x_' + name.replace('.', '_'), None)
         if m is not None:
             return m(ex, args, kwargs)
+        if name.startswith('operator.') and not any(isinstance(a, Pack) for a in args):
+            r = self.operator_call(ex, name[9:], args, kwargs)
+            if r is not None:
+                return r
         if name.startswith('str.') and len(args) >= 1:
             recv = ex.to_val(args[0])
             if not ex.branch(L.is_Str(recv), 'unbound-str-method-recv'):
@@ -601,6 +605,33 @@ class Stubs:
         return IterDesc('range', start=ints[0], stop=ints[1], step=st)
 
     # -- external functions ---------------------------------------------------------------
+    # the operator module: the function forms of the operators the model already has
+    _OPERATOR = {'add': ('Add', False), 'sub': ('Sub', False), 'mul': ('Mult', False), 'truediv': ('Div', False),
+                 'pow': ('Pow', False), 'mod': ('Mod', False), 'floordiv': ('FloorDiv', False),
+                 'iadd': ('Add', True), 'isub': ('Sub', True), 'imul': ('Mult', True), 'itruediv': ('Div', True),
+                 'ipow': ('Pow', True), 'imod': ('Mod', True), 'ifloordiv': ('FloorDiv', True)}
+    _OPERATOR_CMP = {'eq': 'Eq', 'ne': 'NotEq', 'lt': 'Lt', 'le': 'LtE', 'gt': 'Gt', 'ge': 'GtE'}
+
+    def operator_call(self, ex, name, args, kwargs):
+        vals = [ex.to_val(a) for a in self.args_vals(ex, args)]
+        if name in self._OPERATOR and len(vals) == 2 and not kwargs:
+            opname, inplace = self._OPERATOR[name]
+            return self.model.binop(ex, opname, vals[0], vals[1], inplace=inplace)
+        if name in self._OPERATOR_CMP and len(vals) == 2 and not kwargs:
+            return self.model.compare(ex, self._OPERATOR_CMP[name], vals[0], vals[1])
+        if name == 'neg' and len(vals) == 1:
+            return self.model.unary_neg(ex, vals[0])
+        if name == 'pos' and len(vals) == 1:
+            return self.model.unary_pos(ex, vals[0])
+        if name in ('not_', 'truth') and len(vals) == 1:
+            t = ex.truthy(vals[0])
+            return L.BoolV(z3.Not(t) if name == 'not_' else t)
+        if name == 'getitem' and len(vals) == 2:
+            return self.model.getitem(ex, vals[0], vals[1])
+        if name == 'contains' and len(vals) == 2:
+            return L.BoolV(self.model.contains(ex, vals[0], vals[1]))
+        return None
+
     def x_typing_cast(self, ex, args, kwargs):
         return args[1]
 
